@@ -40,6 +40,8 @@ func init() {
 }
 
 func runC24(c *core.Ctx) {
+	c.Rule("CSVNUM", "csv: a column of integers and floats is inferred as Float")
+	checkCSVNumericInference(c, "CSVNUM")
 	c.Rule("FLOATEXACT", "datasources parse floats exactly")
 	checkExactFloatParsing(c, "FLOATEXACT")
 	c.Rule("CELL", "csv: stored value admitted by the column type, or an error")
@@ -643,4 +645,79 @@ func importedConst(p *core.Program, fromRel, path, name string) absint.Val {
 		}
 	}
 	return absint.S("?" + name)
+}
+
+// checkCSVNumericInference (CSVNUM): a csv column holding integers and floats is a Float column. The per-cell
+// inference decides "already Float" / "so far Int" with Type.Equals, an exact comparison that fails as soon as the
+// column is nullable (NULL | Float), and then sums Int and Float into one union — a column in which 3 is an Int and
+// 2.5 a Float, so ORDER BY, =, sum() and > all misbehave. Either the comparisons are subtype tests (Is), or the
+// inferred types are normalised afterwards (Int dropped from every type that admits Float).
+func checkCSVNumericInference(c *core.Ctx, rule string) {
+	p := c.Prog
+	fn := p.Func("datasources/csv", "Creator")
+	key := "datasources/csv.Creator/integers and floats"
+	if fn == nil {
+		c.Unknown(rule, key, 0, "anchor not found")
+		return
+	}
+	c.SawFunc("datasources/csv.Creator")
+	exact, normalised := 0, false
+	ast.Inspect(fn.Decl.Body, func(n ast.Node) bool {
+		switch v := n.(type) {
+		case *ast.CallExpr:
+			s := core.ExprStr(v)
+			if strings.HasSuffix(s, ".Equals(octosql.Float)") || strings.HasSuffix(s, ".Equals(octosql.Int)") {
+				exact++
+			}
+		case *ast.IfStmt:
+			cs := core.ExprStr(v.Cond)
+			if strings.Contains(cs, "octosql.Int.Is(") && strings.Contains(cs, "octosql.Float.Is(") {
+				// the normalisation: a type admitting both loses Int
+				ast.Inspect(v.Body, func(m ast.Node) bool {
+					if as, ok := m.(*ast.AssignStmt); ok && len(as.Lhs) == 1 {
+						if _, isIx := as.Lhs[0].(*ast.IndexExpr); isIx {
+							normalised = true
+						}
+					}
+					return true
+				})
+			}
+		}
+		return true
+	})
+	c.Decide(exact == 0 || normalised, rule, key, fn.Decl.Pos(), exact+1, "no inferred type admits both Int and Float",
+		fmt.Sprintf("the inference compares the column type with Int/Float by exact equality (%d places) and nothing normalises the result: once the column is nullable an integer cell after a float one (or the reverse) yields NULL | Int | Float — a column whose numbers have two types", exact))
+}
+
+// checkStarQualifier (STARQ): `q.*` expands to the columns qualified with q; when no column is, the query names a
+// table that is not there and must be rejected, not run with zero columns.
+func checkStarQualifier(c *core.Ctx, rule string) {
+	p := c.Prog
+	fn := p.Func("logical", "(*Map).Typecheck")
+	key := "logical.(*Map).Typecheck/qualified star"
+	if fn == nil {
+		c.Unknown(rule, key, 0, "anchor not found")
+		return
+	}
+	c.SawFunc("logical.(*Map).Typecheck")
+	var star *ast.IfStmt
+	ast.Inspect(fn.Decl.Body, func(n ast.Node) bool {
+		if is, ok := n.(*ast.IfStmt); ok && star == nil && strings.HasSuffix(core.ExprStr(is.Cond), ".isStar[i]") {
+			star = is
+		}
+		return true
+	})
+	if star == nil {
+		c.Unknown(rule, key, fn.Decl.Pos(), "the star expansion was not found")
+		return
+	}
+	rejects := false
+	ast.Inspect(star.Body, func(n ast.Node) bool {
+		if call, ok := n.(*ast.CallExpr); ok && core.ExprStr(call.Fun) == "panic" && strings.Contains(core.FullStr(call), "starQualifier") {
+			rejects = true
+		}
+		return true
+	})
+	c.Decide(rejects, rule, key, star.Pos(), 1, "a qualifier that matches no column is rejected",
+		"`nosuch.*` with a qualifier that names no table expands to zero columns without an error: json prints {} per row, csv empty lines, the table nothing, and count(*) still counts the rows")
 }
